@@ -213,11 +213,13 @@ Definition canon (k : kind) (a : string) : list sprog :=
   | KIntOf => [SRet (EIntOf X)]
   | KFloatOf => [SRet (EFloatOf X)]
   | KDelay =>
-      [SIf (CIn "ms" X) (SRet (EFloatOf (EStrip (EDropLast X 2))))
-           (SIf (CIn "s" X) (SRet (EMul (EFloatOf (EStrip (EDropLast X 1))) (EFloat (1000 # 1)))) SRetNone)]
+      map (fun k => SIf (CIn "ms" X) (SRet (EFloatOf (EStrip (EDropLast X 2))))
+                        (SIf (CIn "s" X) (SRet (EMul (EFloatOf (EStrip (EDropLast X 1))) k)) SRetNone))
+          [EFloat (1000 # 1); EInt 1000]
   | KParseDelay =>
-      [SIf (CEndswith X "ms") (SRet (EFloatOf (EStrip (EDropLast X 2))))
-           (SIf (CEndswith X "s") (SRet (EMul (EFloatOf (EStrip (EDropLast X 1))) (EFloat (1000 # 1)))) SExit)]
+      map (fun k => SIf (CEndswith X "ms") (SRet (EFloatOf (EStrip (EDropLast X 2))))
+                        (SIf (CEndswith X "s") (SRet (EMul (EFloatOf (EStrip (EDropLast X 1))) k)) SExit))
+          [EFloat (1000 # 1); EInt 1000]
   | KWeight => [SRet (EIf (CNotNone X) (EFloatOf X) (EFloat (1 # 1)))]
   | KSegDefault => [SRet (EIf (CTruthy X) (EIntOf X) (EInt 0)); SRet (EIf (CNotNone X) (EIntOf X) (EInt 0))]
   | KFractDefault => [SRet (EIf (CNotNone X) (EFloatOf X) (EFloat (1 # 2)))]
